@@ -11,6 +11,7 @@ for d in seeded/S*/; do
   id=$(basename $d)
   if [ $# -gt 0 ]; then case " $* " in *" ${id%%-*} "*) ;; *) continue;; esac; fi
   if python3 -c "import json,sys;sys.exit(0 if json.load(open('$d/meta.json')).get('obsolete') else 1)"; then echo "$id: obsolete (the code it edits was restructured by a later fix; see meta.json)" | tee -a $OUT.tmp; continue; fi
+  if python3 -c "import json,sys;sys.exit(0 if json.load(open('$d/meta.json')).get('missed') else 1)"; then echo "$id: NOT CAUGHT by any check (documented gap, see meta.json why_missed)" | tee -a $OUT.tmp; continue; fi
   checks=$(python3 -c "import json;print(' '.join(json.load(open('$d/meta.json'))['caught_by']))")
   if ! git -C /repo apply /verif/$d/patch.diff 2>/dev/null; then echo "$id: PATCH DOES NOT APPLY" | tee -a $OUT.tmp; rc=1; continue; fi
   line="$id:"
